@@ -348,8 +348,15 @@ impl Iterator for Lexer {
                 let end = self.get_pos();
                 self.consume_char();
 
+                // A lone '.' names no directive. Report it (recursing into
+                // `next()` here overflowed the stack on long runs of dots).
                 if dir_str == "." {
-                    return self.next();
+                    return Some(Err(LexError::UnexpectedToken(Box::new(Token::new(
+                        TokenType::Directive(dir_str.clone()),
+                        dir_str,
+                        Range::new(start, end),
+                        self.source_id,
+                    )))));
                 }
 
                 Some(Token::new(
